@@ -8,6 +8,10 @@ import Pycdlib.Model.Stream
 import Pycdlib.Model.Reader
 import Pycdlib.Model.ReaderUdf
 import Pycdlib.Model.Spec
+import Pycdlib.Model.Pack
+import Pycdlib.Model.Layout
+import Pycdlib.Model.Checksum
+import Pycdlib.Model.Codec
 namespace Pycdlib
 
 def parseCps (s : String) : Option (List Nat) :=
@@ -56,6 +60,28 @@ def dispatchPure (toks : List String) : Option String :=
   | ["dates", t, off, flags] => do
     let t ← t.toInt?; let off ← off.toInt?; let fl ← flags.toNat?
     pure s!"{gmtoffset (civil (t + off)) (civil t)} {toHex (drDate t off)} {toHex (vdDate t off)} {toHex (udfDate t off)} {toHex (tfRecord fl t off)}"
+  | ["nfscan", bs, lens] => do
+    let bs ← bs.toNat?
+    let ls ← parseCps lens
+    let sc := nfScan bs (1, 0) ls
+    let wp := writerPlace bs 0 0 ls
+    pure (" ".intercalate (sc.map fun (a, b) => s!"{a}:{b}") ++ " | " ++ " ".intercalate (wp.map fun (a, b) => s!"{a}:{b}"))
+  | ["encdr", ext, dl, date, fl, us, gap, sq, ident, su] => do
+    let r : DRF := { extent := ← ext.toNat?, dataLen := ← dl.toNat?, date := ← ofHex date, flags := ← fl.toNat?,
+                     unitSize := ← us.toNat?, gap := ← gap.toNat?, seqnum := ← sq.toNat?, ident := ← ofHex ident,
+                     su := ← ofHex su }
+    let enc := encDR r
+    let back := match decDR enc with
+      | some d => if d.extent = r.extent ∧ d.dataLen = r.dataLen ∧ d.ident = r.ident ∧ d.flags = r.flags then "rt-ok" else "rt-diff"
+      | none => "rt-none"
+    pure (toHex enc ++ " " ++ back)
+  | ["encptr", be, ext, par, ident] => do
+    let r : PTRF := { extent := ← ext.toNat?, parent := ← par.toNat?, ident := ← ofHex ident }
+    pure (toHex (encPTR (be = "1") r))
+  | ["crc16", hx] => do let b ← ofHex hx; pure (toString (crc16 (b.map (·.toNat))))
+  | ["crc32", hx] => do let b ← ofHex hx; pure (toString (crc32 (b.map (·.toNat))))
+  | ["eltcsum", hx] => do let b ← ofHex hx; pure (toString (elToritoChecksum (b.map (·.toNat))))
+  | ["bitcsum", hx] => do let b ← ofHex hx; pure (toString (bootInfoChecksum (b.map (·.toNat))))
   | "spec" :: rr :: ops => some (Spec.runProtocol (rr = "1") ops)
   | _ => none
 
